@@ -369,7 +369,6 @@ def repeat_scope(R, ctx):
 
 # ---------------------------------------------------------------------------------------------------------------
 # C06.continue: the whole remove_continue rule, evaluated on enumerated loop nests, against a reference semantics
-_CL = {}
 
 
 def _continue_specs(tier):
@@ -390,82 +389,8 @@ def _continue_specs(tier):
     progs = [(k, b) for k in kinds for b in bodies]
     # two levels of wrapping around a loop with its own continue
     progs += [(k, (("L", k2, ("A", ("L", k, ("M",)), "A")), "A")) for k in kinds for k2 in kinds]
-    return progs
-
-
-def _continue_build(B, spec, counter):
-    def fresh(p):
-        counter[0] += 1
-        return "%s%d" % (p, counter[0])
-
-    def body(items):
-        stmts, last = [], None
-        for it in items:
-            if it == "C":
-                last = B.cont()
-            elif it == "K":
-                last = B.brk()
-            elif it == "A":
-                stmts.append(B.if_(fresh("c"), B.block([], B.cont())))
-            elif it == "B":
-                stmts.append(B.if_(fresh("d"), B.block([], B.brk())))
-            elif it == "M":
-                stmts.append(B.mark(fresh("m")))
-            elif it[0] == "L":
-                stmts.append(B.loop(it[1], fresh("w"), body(it[2])))
-            elif it[0] == "F":
-                stmts.append(B.local_function(fresh("f"), body(it[1])))
-            elif it[0] == "FE":
-                stmts.append(B.local_value(fresh("g"), B.function_expr(body(it[1]))))
-            elif it[0] == "D":
-                stmts.append(B.do(body(it[1])))
-        return B.block(stmts, last)
-    kind, items = spec
-    return B.block([B.mark("start"), B.loop(kind, fresh("w"), body(items)), B.mark("end")])
-
-
-def _continue_chunk(specs):
-    import copy
-    import itertools
-    from .. import peval, astmodel
-    from ..peval import Ref
-    ctx, fn, rule_adt, nbits = _CL["ctx"], _CL["fn"], _CL["rule"], _CL["bits"]
-    lib = ctx.lib
-    B = astmodel.Builder(lib)
-    out = []
-    for spec in specs:
-        prog = _continue_build(B, spec, [0])
-        before = copy.deepcopy(prog)
-        pe = peval.PEval(lib, ctx.an, fuel=20000000, max_depth=120)
-        cell = {"v": prog}
-        why = None
-        try:
-            pe.call_fn(fn, [peval.make(lib, rule_adt), Ref(cell, "v"), peval.UNKNOWN])
-        except peval.OutOfFuel:
-            why = "not established: no termination"
-        after = cell["v"]
-        if why is None and astmodel.has_continue(after):
-            why = "a `continue` is left in the lowered program"
-        if why is None:
-            for bits in itertools.product((True, False), repeat=nbits):
-                try:
-                    t0 = astmodel.run_skeleton(before, bits)
-                except astmodel.Stuck as x:
-                    why = "reference semantics stuck on the INPUT (%s)" % x
-                    break
-                try:
-                    t1 = astmodel.run_skeleton(after, bits)
-                except astmodel.Stuck as x:
-                    t1 = ["stuck: %s" % x]
-                if t0 != t1:
-                    k = next((i for i, (a, b) in enumerate(zip(t0, t1)) if a != b), min(len(t0), len(t1)))
-                    why = "oracle %s: the program does %s, the lowered one %s (step %d)" % (
-                        "".join("T" if b else "F" for b in bits), " ".join(t0[max(0, k - 2):k + 2]), " ".join(t1[max(0, k - 2):k + 2]), k)
-                    break
-        if why is not None:
-            why += " | lowered: " + "; ".join(x.strip() for x in astmodel.show(after))[:400]
-        out.append((spec, why))
-    return out
+    # the whole program: a call, the loop, a call
+    return [("M", ("L", k, b), "M") for k, b in progs]
 
 
 def continue_lowering(R, ctx):
@@ -490,19 +415,20 @@ def continue_lowering(R, ctx):
         return
     rule_adt = fn["path"].split(" as ")[0][1:]
     specs = _continue_specs(R.tier)
-    _CL.update(ctx=ctx, fn=fn, rule=rule_adt, bits=nbits)
+    astmodel.configure(ctx=ctx, fn=fn, rule=rule_adt, bits=nbits, no_continue=True)
     chunks = [specs[k:k + 24] for k in range(0, len(specs), 24)]
-    n, bad = 0, {}
-    for res in pmap(_continue_chunk, chunks):
-        for spec, why in res:
+    n, bad, changed = 0, {}, 0
+    for res in pmap(astmodel.rule_chunk, chunks):
+        for spec, why, ch in res:
             n += 1
+            changed += ch
             if why is not None:
-                bad.setdefault(spec[0], []).append((spec, why))
+                bad.setdefault(spec[1][1], []).append((spec[1][1:], why))
     for kind in ("while", "repeat", "numfor", "genfor"):
         b = bad.get(kind, [])
         R.ob(rid, "remove_continue|%s|observationally-equal" % kind, not b, ctx.where(fn),
              "every loop nest keeps its trace" if not b else "%d nests differ; first: %s: %s" % (len(b), b[0][0][1], b[0][1]))
-    R.require(rid, "floor", n >= 1500, ctx.where(fn), "%d loop nests x %d oracles" % (n, 2 ** nbits))
+    R.require(rid, "floor", n >= 1500 and changed >= 1000, ctx.where(fn), "%d loop nests x %d oracles; %d of them were rewritten" % (n, 2 ** nbits, changed))
     R.meta[rid] = {"programs": n, "oracles_per_program": 2 ** nbits}
 
 
